@@ -236,3 +236,63 @@ func VerifC12SQLEnqueue() {
 	}
 	vrt.Assert("C02.sql.inv.enqueue", qInv(w))
 }
+
+// verif:harness props=C03,C05 tier=quick weight=60
+// verif:bounds SQLiteStore over the SQL model, N=2 rows in any state with arbitrary timestamps (leased rows as the store writes them: next_run_at = lease_until); step 1: extend / nack / nothing with a lease id from {current ids, unknown} and an arbitrary amount; the clock then advances by an arbitrary amount; step 2: Dequeue of batch N (sweep due) with arbitrary TTL; the messages handed out are exactly those that the CONTRACT (reference effect of step 1 on the pre-state) makes ready at that instant
+func VerifC03SQLTwoStep() {
+	n := 2
+	w, _ := qNew(n, false)
+	vrt.Assume(w.now.UnixNano() > int64(time.Hour))
+	pre := w.snap()
+	ghost := append([]mSnap{}, pre...)
+	op := []int{opExtend, opNack, -1}[vrt.Choose("first-step", 3)]
+	d := vrt.Duration("d")
+	vrt.Assume(d > -1000*time.Hour && d < 1000*time.Hour)
+	if op >= 0 {
+		presented := []string{"L0", "L1", "zz"}[vrt.Choose("lease", 3)]
+		var err error
+		if op == opExtend {
+			err = w.s.Extend(presented, d)
+		} else {
+			err = w.s.Nack(presented, d)
+		}
+		for i := 0; i < n; i++ {
+			if pre[i].state != StateLeased || pre[i].leaseID != presented {
+				continue
+			}
+			switch {
+			case op == opExtend && d <= 0:
+			case w.now.Before(pre[i].leaseUntil):
+				ghost[i] = refLeaseEffect(op, pre[i], w.now, d, "", false)
+				vrt.Assert("C03.sql.twostep.live-lease-op-accepted", err == nil)
+			default:
+				ghost[i] = refRequeued(pre[i], w.now)
+			}
+		}
+	}
+	adv := vrt.Duration("clock-advance")
+	vrt.Assume(adv >= 0 && adv < 1000*time.Hour)
+	w.now = w.now.Add(adv)
+	w.s.lastLeaseSweepNanos = 0
+	ttl := vrt.Duration("ttl")
+	vrt.Assume(ttl > 0 && ttl < 1000*time.Hour)
+	res, err := w.s.Dequeue(DequeueRequest{Batch: n, LeaseTTL: ttl})
+	vrt.Assert("C05.sql.twostep.dequeue-ok", err == nil)
+	ready := 0
+	for i := 0; i < n; i++ {
+		g := ghost[i]
+		isReady := (g.state == StateQueued && !w.now.Before(g.nextRunAt)) || (g.state == StateLeased && !w.now.Before(g.leaseUntil))
+		if isReady {
+			ready++
+		}
+		got := false
+		for _, it := range res.Items {
+			if it.ID == g.id {
+				got = true
+			}
+		}
+		vrt.Assert("C03.sql.twostep.unexpired-lease-or-not-yet-due-message-is-not-handed-out", !got || isReady)
+		vrt.Assert("C05.sql.twostep.every-ready-message-is-handed-out", got || !isReady)
+	}
+	vrt.Assert("C05.sql.twostep.exactly-the-ready-ones", len(res.Items) == ready)
+}
